@@ -22,6 +22,15 @@ class Generator:
         self.w = dict(self.p["weights"])
         self.n_fresh = 0
         self.cur_session = 0
+        if mach.cfg.get("population", "clean") == "clean":
+            for k in ("arm_engine", "gc"):
+                self.w[k] = 0
+        else:
+            self.w["gc"] = max(self.w.get("gc", 0), 1)
+            self.w["uuid_regime"] = max(self.w.get("uuid_regime", 0), 2)
+            if "sqlite" in mach.replicas:
+                self.w["arm_engine"] = max(self.w.get("arm_engine", 0), 2)
+                self.w["observe"] = max(self.w.get("observe", 0), 4)
         # swarm: disable a random subset of optional op kinds per run
         optional = [k for k in self.w if k not in self.p.get("core_ops", ("src",))]
         self.rng.shuffle(optional)
@@ -478,6 +487,8 @@ class Generator:
         if pt is None:
             return None
         by = self.total_order(pt, extra=self.rng.choice([0, 1, 1, 2]))
+        if by is not None and not by:
+            return None
         if by is None:
             # partial order (row order then compared as a multiset)
             cands = self.addressable(pt, kinds=("int", "str"))
